@@ -6,7 +6,7 @@ ID = 'C02'
 LEVEL = 'exploration'
 NEEDS = ('threads', 'aio', 'proc')
 PROC_READY = True
-QUICK = dict(runs=5000, wall=85)
+QUICK = dict(runs=12000, wall=85)
 THOROUGH = dict(runs=300000, wall=1500)
 RULE = ('scenario = servlet tree from a grammar (Thread/Process leaves with 1-3 workers, batch_size in {0,1,2,4}, Sequential, Ensemble '
         '(fail_fast both ways), Switch on x%k), capacity 1..6, Server or AsyncServer, 2-4 concurrent callers issuing call / stream '
